@@ -41,7 +41,9 @@ CONSTANTS Epochs,       \* set of epoch digit strings, <<>> = no epoch
           Seps,         \* TRUE: also ':' / '-' inside the upstream part where D2 allows them
           Triples,      \* TRUE: a third string is chosen and Trans is checked
           EmitStride,   \* 0: no CASE lines; n > 0: pairs with checksum % n = EmitOffset
-          EmitOffset
+          EmitOffset,
+          CheckPos      \* TRUE (universes without separators): also compare the two strings in REVISION
+                        \* position, "1-" \o x against "1-" \o y (invariant RevPosition)
 
 VARIABLES v1, v2, v3, out
 vars == <<v1, v2, v3, out>>
@@ -64,7 +66,9 @@ Info(s) == [p |-> Parse(s), i |-> IPrep(s), c |-> Canon(s), k |-> IHashKey(s)]
 InfoOf  == TLCEval([s \in Vers |-> Info(s)])     \* TLCEval: a table, not a lazy lambda
 Ref(x, y) == CmpParsed(InfoOf[x].p, InfoOf[y].p)          \* = DpkgCmp(x, y)
 
-NoRes == [ref |-> 0, rev |-> 0, impl |-> 0, ceq |-> FALSE, keq |-> FALSE, bc |-> 0, ac |-> 0]
+NoRes == [ref |-> 0, rev |-> 0, impl |-> 0, ceq |-> FALSE, keq |-> FALSE, bc |-> 0, ac |-> 0, pos |-> 0, ipos |-> 0, cpos |-> FALSE]
+InRev(x) == <<49, Hyphen>> \o x                      \* the version "1-x": x as revision of the upstream "1"
+InfoPos  == TLCEval([s \in (IF CheckPos THEN Vers ELSE {}) |-> Info(InRev(s))])
 
 RECURSIVE Chk(_, _)
 Chk(s, i) == IF s = <<>> THEN 0 ELSE (Head(s) * i + Chk(Tail(s), i + 1)) % 100003
@@ -78,7 +82,10 @@ Compare ==
     /\ LET ia == InfoOf[v1] ib == InfoOf[v2'] IN
        out' = [NoRes EXCEPT !.ref = CmpParsed(ia.p, ib.p), !.rev = CmpParsed(ib.p, ia.p),
                           !.impl = ICmpPrepared(ia.i, ib.i),
-                          !.ceq = (ia.c = ib.c), !.keq = (ia.k = ib.k)]
+                          !.ceq = (ia.c = ib.c), !.keq = (ia.k = ib.k),
+                          !.pos  = IF CheckPos THEN CmpParsed(InfoPos[v1].p, InfoPos[v2'].p) ELSE 0,
+                          !.ipos = IF CheckPos THEN ICmpPrepared(InfoPos[v1].i, InfoPos[v2'].i) ELSE 0,
+                          !.cpos = CheckPos /\ InfoPos[v1].c = InfoPos[v2'].c]
     /\ UNCHANGED <<v1, v3>>
     /\ (Selected(v1, v2') => PrintT(<<"CASE", ToJson(<<v1, v2', out'.ref, out'.ceq, out'.rev>>)>>))
 
@@ -115,6 +122,9 @@ Reflexive      == ~Pair => Ref(v1, v1) = 0 /\ ICompare(v1, v1) = 0
 Trans          == v3 # None =>
                     /\ (out.ref <= 0 /\ out.bc <= 0) => (out.ac <= 0 /\ (out.ac = 0 => (out.ref = 0 /\ out.bc = 0)))
                     /\ (out.ref >= 0 /\ out.bc >= 0) => (out.ac >= 0 /\ (out.ac = 0 => (out.ref = 0 /\ out.bc = 0)))
+\* a pair of separator-free strings orders, and hashes, in revision position exactly as in upstream
+\* position (the harness replays every CASE pair of such a universe in both positions)
+RevPosition    == (Pair /\ CheckPos) => (out.pos = out.ref /\ out.ipos = out.ref /\ out.cpos = out.ceq)
 HashConsistent == Pair => ((out.ref = 0) <=> out.ceq)
 HashImpl       == Pair => (out.keq <=> out.ceq)
 =============================================================================
